@@ -115,6 +115,12 @@ def breakc(a):
         root = int(root['int'])
     else:
         root = [int(r) for r in root]
+    if a.get('prior_root') is not None:
+        # an earlier call on the SAME matrix object with another root (result discarded): the graph the caller holds is still the graph
+        try:
+            break_cycles(m, int(a['prior_root']), directed=_directed(a))
+        except Exception:       # noqa
+            pass
     snap = _snapshot(m)
     out = break_cycles(m, root, directed=_directed(a))
     out = sparse.csr_matrix(out)
